@@ -24,6 +24,7 @@ pub mod c05;
 pub mod c05a;
 pub mod c07a;
 pub mod c07b;
+pub mod c08;
 pub mod c10;
 pub mod c10b;
 pub mod c11;
@@ -52,5 +53,6 @@ pub fn registry() -> Vec<(&'static str, fn())> {
 	v.extend_from_slice(c16::HARNESSES);
 	v.extend_from_slice(c15::HARNESSES);
 	v.extend_from_slice(c19::HARNESSES);
+	v.extend_from_slice(c08::HARNESSES);
 	v
 }
